@@ -24,7 +24,7 @@ from kopf._cogs.configs import configuration
 from kopf._cogs.structs import bodies, diffs, ephemera, finalizers, patches, references
 from kopf._core.actions import application, execution, lifecycles, loggers, progression, throttlers
 from kopf._core.engines import daemons, indexing, posting
-from kopf._core.intents import causes, registries
+from kopf._core.intents import causes, registries, stoppers
 from kopf._core.reactor import inventory, subhandling
 
 
@@ -270,6 +270,7 @@ async def process_resource_causes(
             memory=memory,
             cause=spawning_cause,
             operator_paused=operator_paused,
+            gone=raw_event['type'] == 'DELETED',
         )
 
     # If there are any handlers for this resource kind in general, but not for this specific object
@@ -383,6 +384,7 @@ async def process_spawning_cause(
         memory: inventory.ResourceMemory,
         cause: causes.SpawningCause,
         operator_paused: aiotoggles.ToggleSet | None,  # None for tests
+        gone: bool = False,
 ) -> Collection[float]:
     """
     Spawn/kill all the background tasks of a resource.
@@ -403,6 +405,20 @@ async def process_spawning_cause(
         memory.daemons_memory.live_fresh_body = cause.body
     if cause.reset:
         memory.daemons_memory.idle_reset_time = asyncio.get_running_loop().time()
+
+    # The object is really gone, maybe without ever being marked for deletion (e.g. it was deleted
+    # before our finalizer was added, or the finalizer was removed by force). No more events will come,
+    # and the memory is already forgotten, so nothing else will ever stop its daemons: do it here,
+    # in the background, in the same stages as on the operator exit. And never spawn the new ones.
+    if gone:
+        for daemon in list(memory.daemons_memory.running_daemons.values()):
+            asyncio.create_task(
+                name=f"final stopper of {daemon}",
+                coro=daemons.stop_daemon(
+                    settings=settings,
+                    daemon=daemon,
+                    reason=stoppers.DaemonStoppingReason.RESOURCE_DELETED))
+        return []
 
     if finalizers.is_deletion_ongoing(cause.body):
         stopping_delays = await daemons.stop_daemons(
